@@ -65,13 +65,12 @@ impl<S: ShortGroupSignatureScheme> BlindCredentialRequest<S> {
 
     /// Verify the signing request is well-formed
     pub fn verify(&self, issuer: &Issuer<S>) -> CredxResult<()> {
-        let mut known_messages =
-            Vec::with_capacity(self.blind_claim_labels.len());
+        let mut blinded = std::collections::BTreeSet::new();
         for label in &self.blind_claim_labels {
             if !issuer.schema.blind_claims.contains(label) {
                 return Err(Error::InvalidClaimData("claim is not blindable"));
             }
-            known_messages.push(
+            blinded.insert(
                 issuer
                     .schema
                     .claim_indices
@@ -79,6 +78,11 @@ impl<S: ShortGroupSignatureScheme> BlindCredentialRequest<S> {
                     .ok_or(Error::InvalidClaimData("claim does not exist in schema"))?,
             );
         }
+        // the context proves knowledge of the blinded messages; what it is checked against is
+        // the set of messages the issuer knows, i.e. every other index
+        let known_messages = (0..issuer.schema.claims.len())
+            .filter(|index| !blinded.contains(index))
+            .collect::<Vec<_>>();
         let res = self
             .blind_signature_context
             .verify(&known_messages, &issuer.signing_key, self.nonce)
